@@ -270,6 +270,7 @@ func (d *Driver) Enabled(e *mc.Env, s *mc.State) []mc.Op {
 			add(opData{kind: "transfer", slot: i, c: sd.c, sender: a, rcpt: a, variant: "none", role: role})
 			add(opData{kind: "transfer", slot: i, c: sd.c, sender: a, rcpt: a, variant: "all", role: role})
 			add(opData{kind: "edit", slot: i, c: sd.c, sender: a, variant: "all", role: role})
+			add(opData{kind: "edit", slot: i, c: sd.c, sender: a, variant: "none", role: role})
 			add(opData{kind: "burn", slot: i, c: sd.c, sender: a, role: role})
 		}
 		// minting over a live id: by the class creator and by one other actor
@@ -308,27 +309,180 @@ func (d *Driver) queryNFT(e *mc.Env, s *mc.State, slot int) (*nfttypes.BaseNFT, 
 	return r.NFT, nil
 }
 
-// adopt: after a change the property allows (owner, class not update-restricted), the fields the
-// owner asked to change take whatever value the module stored (the property does not say which);
-// fields sent as the sentinel keep the reference value, so any change to them is detected by Check.
-func (d *Driver) adopt(e *mc.Env, s *mc.State, slot int, req meta) {
-	m := s.Model.(*model)
-	got, err := d.queryNFT(e, s, slot)
-	if err != nil || got == nil {
-		return // Check reports the missing token
+func actorOf(bech string) string {
+	for _, a := range actors {
+		if addr(a) == bech {
+			return a
+		}
 	}
-	t := &m.tok[slot]
-	if req.Name != sentinel {
-		t.m.Name = got.Name
+	return "?" + bech
+}
+
+// view is what the module reports through its class and collection queries, in the shape of the
+// reference model (owner names resolved back to actor labels).
+type view struct {
+	cls     [2]class
+	clsID   [2]string
+	tok     [3]token
+	unknown []string // tokens reported under ids the harness never minted
+	colls   [2][]nfttypes.BaseNFT
+	errs    []mc.Finding
+}
+
+func (d *Driver) observe(e *mc.Env, s *mc.State) *view {
+	v := &view{}
+	for c := range classID {
+		dr, err := e.NFT.Denom(s.Ctx, &nfttypes.QueryDenomRequest{DenomId: classID[c]})
+		if err != nil || dr.Denom == nil {
+			continue
+		}
+		v.cls[c] = class{exists: true, creator: actorOf(dr.Denom.Creator), mintR: dr.Denom.MintRestricted, upR: dr.Denom.UpdateRestricted}
+		v.clsID[c] = dr.Denom.Id
+		cr, err := e.NFT.Collection(s.Ctx, &nfttypes.QueryCollectionRequest{DenomId: classID[c]})
+		if err != nil || cr.Collection == nil {
+			v.errs = append(v.errs, mc.F("C14/query-failed/collection", "class %s: %v", classLabel[c], err))
+			continue
+		}
+		if cr.Collection.Denom.Id != classID[c] {
+			v.clsID[c] = cr.Collection.Denom.Id
+		}
+		v.colls[c] = cr.Collection.NFTs
+		for _, t := range cr.Collection.NFTs {
+			found := false
+			for i, sd := range slots {
+				if sd.c == c && sd.id == t.Id {
+					found = true
+					v.tok[i] = token{exists: true, owner: actorOf(t.Owner), m: meta{t.Name, t.URI, t.UriHash, t.Data}}
+				}
+			}
+			if !found {
+				v.unknown = append(v.unknown, classLabel[c]+"/"+t.Id)
+			}
+		}
 	}
-	if req.URI != sentinel {
-		t.m.URI = got.URI
+	return v
+}
+
+func mintFlagNow(e *mc.Env, s *mc.State, c int) bool {
+	dr, err := e.NFT.Denom(s.Ctx, &nfttypes.QueryDenomRequest{DenomId: classID[c]})
+	return err == nil && dr.Denom != nil && dr.Denom.MintRestricted
+}
+
+// allowance: which fields of which slot may silently take a new value in this step.
+type allowance struct {
+	slot   int
+	fields [4]bool
+}
+
+var noAllowance = allowance{slot: -1}
+
+// diff reports every difference between the module's view and the reference.
+// cause is the kind of the message that was just accepted ("no-message" from Check), target its token slot.
+func (d *Driver) diff(v *view, m *model, al allowance, cause string, target int) []mc.Finding {
+	fs := append([]mc.Finding{}, v.errs...)
+	for c := range m.cls {
+		w, g := m.cls[c], v.cls[c]
+		switch {
+		case w.exists && !g.exists:
+			fs = append(fs, mc.F("C14/class-set-differs/vanished", "class %s (creator %s) is no longer reported by the class query", classLabel[c], w.creator))
+			continue
+		case !w.exists && g.exists:
+			fs = append(fs, mc.F("C14/class-set-differs/appeared", "class %s was not issued but the class query reports it (creator %s)", classLabel[c], g.creator))
+			continue
+		case !w.exists:
+			continue
+		}
+		if v.clsID[c] != classID[c] {
+			fs = append(fs, mc.F("C14/class-record-differs/id", "class %s reports id %q", classLabel[c], v.clsID[c]))
+		}
+		if g.creator != w.creator {
+			fs = append(fs, mc.F("C14/class-record-differs/creator", "class %s reports creator %s, reference %s", classLabel[c], g.creator, w.creator))
+		}
+		// A drift of the restriction flags in the class record is not reported by itself: the property
+		// speaks about what can happen to tokens of a class that was issued restricted. The reference
+		// keeps the issued flags, the consequences (a stranger minting, metadata changing) are reported
+		// with the state of the class record as a discriminator.
 	}
-	if req.Hash != sentinel {
-		t.m.Hash = got.UriHash
+	if len(v.unknown) > 0 {
+		fs = append(fs, mc.F("C14/token-set-differs/unknown-id", "collections list tokens that were never minted: %v", v.unknown))
 	}
-	if req.Data != sentinel {
-		t.m.Data = got.Data
+	for i, sd := range slots {
+		w, g := m.tok[i], v.tok[i]
+		name := fmt.Sprintf("(%s,%s)", classLabel[sd.c], sd.label)
+		switch {
+		case w.exists && !g.exists:
+			fs = append(fs, mc.F("C14/token-set-differs/vanished", "token %s owned by %s is no longer in the collection", name, w.owner))
+			continue
+		case !w.exists && g.exists:
+			fs = append(fs, mc.F("C14/token-set-differs/appeared", "token %s does not exist in the reference but the collection lists it (owner %s)", name, g.owner))
+			continue
+		case !w.exists:
+			continue
+		}
+		if g.owner != w.owner {
+			fs = append(fs, mc.F("C14/owner-differs-from-reference", "token %s: collection reports owner %s, reference %s", name, g.owner, w.owner))
+		}
+		gf, wf := g.m.fields(), w.m.fields()
+		var changed []string
+		for k := range gf {
+			if gf[k] != wf[k] && !(al.slot == i && al.fields[k]) {
+				changed = append(changed, fieldNames[k])
+			}
+		}
+		if len(changed) > 0 {
+			// discriminators: the message kind that was just accepted and whether it addressed this token
+			// (the changed fields are in the detail: one broken handler = one signature)
+			via := cause
+			if cause != "no-message" && target != i {
+				via += "-on-other-token"
+			}
+			sig := "C14/metadata-changed-without-owner-request/" + via
+			if m.cls[sd.c].upR {
+				sig = "C14/update-restricted-metadata-changed/" + via + "/" + flagState(v.cls[sd.c].upR)
+			}
+			fs = append(fs, mc.F(sig, "token %s: %s changed: now %v, before %v (class issued update-restricted=%v, class record now says %v)", name, joinPlus(changed), gf, wf, m.cls[sd.c].upR, v.cls[sd.c].upR))
+		}
+	}
+	return fs
+}
+
+// flagState names whether the class record still carries a restriction flag the class was issued with.
+func flagState(still bool) string {
+	if still {
+		return "class-record-flag-intact"
+	}
+	return "class-record-flag-lost"
+}
+
+func joinPlus(xs []string) string {
+	o := ""
+	for i, x := range xs {
+		if i > 0 {
+			o += "+"
+		}
+		o += x
+	}
+	return o
+}
+
+// sync makes the reference follow the module's view (after the differences have been reported), so
+// that one defect is reported once, at the step where it becomes visible, and not again in every
+// later state. The ghost of a burned token is harness knowledge and is kept.
+func (m *model) sync(v *view) {
+	for c := range m.cls {
+		issued := m.cls[c]
+		m.cls[c] = v.cls[c]
+		if issued.exists && v.cls[c].exists {
+			// restriction flags are fixed at issue; the reference never forgets them
+			m.cls[c].mintR, m.cls[c].upR = issued.mintR, issued.upR
+		}
+	}
+	for i := range m.tok {
+		g := m.tok[i].ghost
+		m.tok[i] = v.tok[i]
+		if !m.tok[i].exists {
+			m.tok[i].ghost = g
+		}
 	}
 }
 
@@ -362,8 +516,8 @@ func (d *Driver) Apply(e *mc.Env, s *mc.State, op mc.Op) []mc.Finding {
 	}
 	out := s.Deliver(e, op.Name, msg)
 	if !out.OK {
-		// a rejection (or a handler panic, which on chain is a failed tx) leaves the state untouched;
-		// the property promises no operation's success
+		// a rejection (or a handler panic, which on chain is a failed tx) leaves the state untouched
+		// (Deliver's atomicity); the property promises no operation's success
 		return nil
 	}
 	if !od.entitled {
@@ -376,33 +530,49 @@ func (d *Driver) Apply(e *mc.Env, s *mc.State, op mc.Op) []mc.Finding {
 			if od.role == "id-in-use" {
 				fs = append(fs, mc.F("C14/token-id-reused/mint-over-existing", "%s accepted although the token exists (owner %s)", op.Name, m.tok[od.slot].owner))
 			} else {
-				fs = append(fs, mc.F("C14/restricted-mint-by-non-creator", "%s accepted in a mint-restricted class whose creator is %s", op.Name, m.cls[od.c].creator))
+				now := mintFlagNow(e, s, od.c)
+				fs = append(fs, mc.F("C14/restricted-mint-by-non-creator/"+flagState(now), "%s accepted in a class issued mint-restricted whose creator is %s (class record now says mint_restricted=%v)", op.Name, m.cls[od.c].creator, now))
 			}
 		default:
 			fs = append(fs, mc.F("C14/"+od.kind+"-by-non-owner/"+od.role, "%s accepted; the reference owner of the token is %q (exists=%v)", op.Name, m.tok[od.slot].owner, m.tok[od.slot].exists))
 		}
-		// the reference is not advanced by an illegitimate success: Check keeps reporting the divergence
-		return fs
 	}
+	// nominal effect of the accepted message on the reference (also for an illegitimate success: its
+	// root cause has just been reported, the consequences are not reported again)
+	al := noAllowance
 	switch od.kind {
 	case "issue":
 		m.cls[od.c] = class{exists: true, creator: od.sender, mintR: d.V.Flags[od.c][0], upR: d.V.Flags[od.c][1]}
 	case "xclass":
 		m.cls[od.c].creator = od.rcpt
 	case "mint":
+		// the property does not say which metadata a mint stores: whatever it is, it is the token's
+		// metadata from now on
 		m.tok[od.slot] = token{exists: true, owner: od.rcpt, m: metaMint}
-	case "edit":
-		if !m.cls[od.c].upR {
-			d.adopt(e, s, od.slot, req)
-		}
-	case "transfer":
-		m.tok[od.slot].owner = od.rcpt
-		if !m.cls[od.c].upR {
-			d.adopt(e, s, od.slot, req)
+		al = allowance{slot: od.slot, fields: [4]bool{true, true, true, true}}
+	case "edit", "transfer":
+		if m.tok[od.slot].exists {
+			if od.kind == "transfer" {
+				m.tok[od.slot].owner = od.rcpt
+			}
+			// fields the sender asked to change may take a new value (the property does not say which),
+			// unless the class is update-restricted; fields sent as the sentinel may not change
+			if !m.cls[od.c].upR {
+				al = allowance{slot: od.slot, fields: [4]bool{req.Name != sentinel, req.URI != sentinel, req.Hash != sentinel, req.Data != sentinel}}
+			}
 		}
 	case "burn":
-		m.tok[od.slot] = token{ghost: m.tok[od.slot].owner}
+		if m.tok[od.slot].exists {
+			m.tok[od.slot] = token{ghost: m.tok[od.slot].owner}
+		}
 	}
+	v := d.observe(e, s)
+	target := -1
+	if od.kind != "issue" && od.kind != "xclass" {
+		target = od.slot
+	}
+	fs = append(fs, d.diff(v, m, al, od.kind, target)...)
+	m.sync(v)
 	return fs
 }
 
@@ -424,15 +594,20 @@ func eqStrings(a, b []string) bool {
 	return true
 }
 
-// Check compares every query of the module with the reference ownership map.
+// Check: (1) the module's class / collection view equals the reference (after Apply's sync this only
+// fires in the initial state or if a rejected message had an effect); (2) the module's reports are
+// consistent with each other: reported supply = number of tokens in the collection = sum of the
+// owners' balances; every token is listed under exactly one owner, the one the collection and the
+// token query report; the class list holds exactly the issued classes.
 func (d *Driver) Check(e *mc.Env, s *mc.State) []mc.Finding {
 	m := s.Model.(*model)
-	var fs []mc.Finding
 	s.Nontrivial = m.live() >= 2
+	v := d.observe(e, s)
+	fs := d.diff(v, m, noAllowance, "no-message", -1)
 
-	// the set of classes
+	// the class list
 	var wantClasses, gotClasses []string
-	for c, cl := range m.cls {
+	for c, cl := range v.cls {
 		if cl.exists {
 			wantClasses = append(wantClasses, classID[c])
 		}
@@ -444,94 +619,36 @@ func (d *Driver) Check(e *mc.Env, s *mc.State) []mc.Finding {
 			gotClasses = append(gotClasses, dn.Id)
 		}
 		if !eqStrings(sortedCopy(gotClasses), sortedCopy(wantClasses)) {
-			fs = append(fs, mc.F("C14/class-set-differs", "classes query lists %v, reference %v", gotClasses, wantClasses))
+			fs = append(fs, mc.F("C14/class-list-differs-from-class-queries", "classes query lists %v, single-class queries find %v", gotClasses, wantClasses))
 		}
 	}
 
-	for c, cl := range m.cls {
-		id := classID[c]
-		dr, err := e.NFT.Denom(s.Ctx, &nfttypes.QueryDenomRequest{DenomId: id})
+	for c, cl := range v.cls {
 		if !cl.exists {
-			if err == nil {
-				fs = append(fs, mc.F("C14/class-set-differs", "class %s was never issued but the class query returns %v", classLabel[c], dr.Denom))
-			}
 			continue
 		}
-		if err != nil || dr.Denom == nil {
-			fs = append(fs, mc.F("C14/class-vanished", "class %s: class query failed: %v", classLabel[c], err))
-			continue
+		id := classID[c]
+		coll := v.colls[c]
+		collOwner := map[string]string{}
+		seen := map[string]int{}
+		for _, t := range coll {
+			seen[t.Id]++
+			collOwner[t.Id] = t.Owner
 		}
-		dn := dr.Denom
-		if dn.Id != id {
-			fs = append(fs, mc.F("C14/class-record-differs/id", "class %s reports id %q", classLabel[c], dn.Id))
-		}
-		if dn.Creator != addr(cl.creator) {
-			fs = append(fs, mc.F("C14/class-record-differs/creator", "class %s reports creator %s, reference %s (%s)", classLabel[c], dn.Creator, cl.creator, addr(cl.creator)))
-		}
-		if dn.MintRestricted != cl.mintR {
-			fs = append(fs, mc.F("C14/class-record-differs/mint_restricted", "class %s reports mint_restricted=%v, issued with %v", classLabel[c], dn.MintRestricted, cl.mintR))
-		}
-		if dn.UpdateRestricted != cl.upR {
-			fs = append(fs, mc.F("C14/class-record-differs/update_restricted", "class %s reports update_restricted=%v, issued with %v", classLabel[c], dn.UpdateRestricted, cl.upR))
-		}
-
-		// tokens of the class according to the reference
-		want := map[string]token{}
-		var wantIDs []string
-		for i, sd := range slots {
-			if sd.c == c && m.tok[i].exists {
-				want[sd.id] = m.tok[i]
-				wantIDs = append(wantIDs, sd.id)
+		for _, tid := range sortedKeys(seen) {
+			if seen[tid] > 1 {
+				fs = append(fs, mc.F("C14/token-listed-twice/collection", "class %s lists token %s %d times", classLabel[c], tid, seen[tid]))
 			}
 		}
-		sort.Strings(wantIDs)
-
-		// collection query
-		nColl := -1
-		cr, err := e.NFT.Collection(s.Ctx, &nfttypes.QueryCollectionRequest{DenomId: id})
-		if err != nil || cr.Collection == nil {
-			fs = append(fs, mc.F("C14/query-failed/collection", "class %s: %v", classLabel[c], err))
-		} else {
-			nColl = len(cr.Collection.NFTs)
-			var gotIDs []string
-			seen := map[string]int{}
-			for _, t := range cr.Collection.NFTs {
-				gotIDs = append(gotIDs, t.Id)
-				seen[t.Id]++
-			}
-			for _, tid := range sortedKeys(seen) {
-				if seen[tid] > 1 {
-					fs = append(fs, mc.F("C14/token-listed-twice/collection", "class %s lists token %s %d times", classLabel[c], tid, seen[tid]))
-				}
-			}
-			if !eqStrings(sortedCopy(gotIDs), wantIDs) {
-				fs = append(fs, mc.F("C14/token-set-differs/collection", "class %s: collection lists %v, reference %v", classLabel[c], gotIDs, wantIDs))
-			}
-			if cr.Collection.Denom.Id != id {
-				fs = append(fs, mc.F("C14/class-record-differs/id", "collection of class %s reports class id %q", classLabel[c], cr.Collection.Denom.Id))
-			}
-			for _, t := range cr.Collection.NFTs {
-				if w, ok := want[t.Id]; ok {
-					fs = append(fs, d.compareToken(c, "collection", t, w)...)
-				}
-			}
-		}
-
-		// reported supply
 		sr, err := e.NFT.Supply(s.Ctx, &nfttypes.QuerySupplyRequest{DenomId: id})
 		if err != nil {
 			fs = append(fs, mc.F("C14/query-failed/supply", "class %s: %v", classLabel[c], err))
 			continue
 		}
 		supply := sr.Amount
-		if nColl >= 0 && supply != uint64(nColl) {
-			fs = append(fs, mc.F("C14/supply-differs/reported-vs-collection", "class %s: reported supply %d, collection holds %d tokens", classLabel[c], supply, nColl))
+		if supply != uint64(len(coll)) {
+			fs = append(fs, mc.F("C14/supply-differs/reported-vs-collection", "class %s: reported supply %d, collection holds %d tokens", classLabel[c], supply, len(coll)))
 		}
-		if supply != uint64(len(wantIDs)) {
-			fs = append(fs, mc.F("C14/supply-differs/reported-vs-reference", "class %s: reported supply %d, reference holds %d tokens %v", classLabel[c], supply, len(wantIDs), wantIDs))
-		}
-
-		// owners' balances and owner index
 		var sumBal uint64
 		listedBy := map[string][]string{}
 		for _, a := range actors {
@@ -541,60 +658,67 @@ func (d *Driver) Check(e *mc.Env, s *mc.State) []mc.Finding {
 				continue
 			}
 			sumBal += br.Amount
-			var wantOwned []string
-			for _, tid := range wantIDs {
-				if want[tid].owner == a {
-					wantOwned = append(wantOwned, tid)
-				}
-			}
-			if br.Amount != uint64(len(wantOwned)) {
-				fs = append(fs, mc.F("C14/owner-balance-differs", "class %s: balance of %s is %d, reference owns %v", classLabel[c], a, br.Amount, wantOwned))
-			}
 			or, err := e.NFT.NFTsOfOwner(s.Ctx, &nfttypes.QueryNFTsOfOwnerRequest{DenomId: id, Owner: addr(a)})
 			if err != nil || or.Owner == nil {
 				fs = append(fs, mc.F("C14/query-failed/nfts-of-owner", "class %s owner %s: %v", classLabel[c], a, err))
 				continue
 			}
-			var gotOwned []string
+			n := 0
 			for _, idc := range or.Owner.IDCollections {
 				if idc.DenomId != id {
 					fs = append(fs, mc.F("C14/owner-index-differs/foreign-class", "tokens-of-owner(%s,%s) lists class %q", classLabel[c], a, idc.DenomId))
 					continue
 				}
-				gotOwned = append(gotOwned, idc.TokenIds...)
+				for _, tid := range idc.TokenIds {
+					n++
+					listedBy[tid] = append(listedBy[tid], a)
+					if _, ok := collOwner[tid]; !ok {
+						fs = append(fs, mc.F("C14/owner-index-differs/token-not-in-collection", "class %s: tokens-of-owner(%s) lists %s, which the collection does not hold", classLabel[c], a, tid))
+					}
+				}
 			}
-			for _, tid := range gotOwned {
-				listedBy[tid] = append(listedBy[tid], a)
-			}
-			if !eqStrings(sortedCopy(gotOwned), wantOwned) {
-				fs = append(fs, mc.F("C14/owner-index-differs", "class %s: tokens-of-owner(%s) lists %v, reference %v", classLabel[c], a, gotOwned, wantOwned))
+			if br.Amount != uint64(n) {
+				fs = append(fs, mc.F("C14/owner-balance-differs-from-owner-index", "class %s: balance of %s is %d, tokens-of-owner lists %d", classLabel[c], a, br.Amount, n))
 			}
 		}
+		// every owner in this closed system is one of the actors, so the balances must add up
 		if sumBal != supply {
 			fs = append(fs, mc.F("C14/supply-differs/reported-vs-owner-balances", "class %s: reported supply %d, owners' balances sum to %d", classLabel[c], supply, sumBal))
 		}
-		for _, tid := range wantIDs {
-			if n := len(listedBy[tid]); n != 1 {
-				fs = append(fs, mc.F(fmt.Sprintf("C14/owners-per-token/%d", n), "class %s token %s is listed under the owners %v", classLabel[c], tid, listedBy[tid]))
+		for _, t := range coll {
+			ls := listedBy[t.Id]
+			if len(ls) != 1 {
+				fs = append(fs, mc.F(fmt.Sprintf("C14/owners-per-token/%d", len(ls)), "class %s token %s (collection owner %s) is listed under the owners %v", classLabel[c], t.Id, actorOf(t.Owner), ls))
+			} else if addr(ls[0]) != t.Owner {
+				fs = append(fs, mc.F("C14/owner-index-differs/owner", "class %s token %s: collection owner %s, owner index %s", classLabel[c], t.Id, actorOf(t.Owner), ls[0]))
 			}
 		}
 	}
 
-	// single-token query for every slot
+	// single-token query for every slot against the collection view
 	for i, sd := range slots {
-		t := m.tok[i]
+		t := v.tok[i]
+		name := fmt.Sprintf("(%s,%s)", classLabel[sd.c], sd.label)
 		got, err := d.queryNFT(e, s, i)
 		if !t.exists {
 			if err == nil && got != nil {
-				fs = append(fs, mc.F("C14/token-exists-unexpectedly", "token (%s,%s) does not exist in the reference but the token query returns %v", classLabel[sd.c], sd.label, got))
+				fs = append(fs, mc.F("C14/token-query-differs-from-collection/exists", "token %s is not in the collection but the token query returns %v", name, got))
 			}
 			continue
 		}
 		if err != nil || got == nil {
-			fs = append(fs, mc.F("C14/token-vanished", "token (%s,%s) owned by %s: token query failed: %v", classLabel[sd.c], sd.label, t.owner, err))
+			fs = append(fs, mc.F("C14/token-query-differs-from-collection/missing", "token %s is in the collection but the token query fails: %v", name, err))
 			continue
 		}
-		fs = append(fs, d.compareToken(sd.c, "token", *got, t)...)
+		if got.Id != sd.id {
+			fs = append(fs, mc.F("C14/token-query-differs-from-collection/id", "token %s: token query reports id %q", name, got.Id))
+		}
+		if actorOf(got.Owner) != t.owner {
+			fs = append(fs, mc.F("C14/token-query-differs-from-collection/owner", "token %s: token query owner %s, collection owner %s", name, actorOf(got.Owner), t.owner))
+		}
+		if (meta{got.Name, got.URI, got.UriHash, got.Data}) != t.m {
+			fs = append(fs, mc.F("C14/token-query-differs-from-collection/metadata", "token %s: token query %v, collection %v", name, got, t.m))
+		}
 	}
 	return fs
 }
@@ -606,27 +730,6 @@ func sortedKeys(m map[string]int) []string {
 	}
 	sort.Strings(ks)
 	return ks
-}
-
-// compareToken: one token as reported by a query against the reference.
-func (d *Driver) compareToken(c int, query string, got nfttypes.BaseNFT, want token) []mc.Finding {
-	var fs []mc.Finding
-	if got.Owner != addr(want.owner) {
-		fs = append(fs, mc.F("C14/owner-differs-from-reference/"+query, "class %s token %s: %s query reports owner %s, reference %s (%s)", classLabel[c], got.Id, query, got.Owner, want.owner, addr(want.owner)))
-	}
-	g := meta{got.Name, got.URI, got.UriHash, got.Data}.fields()
-	w := want.m.fields()
-	for i := range g {
-		if g[i] == w[i] {
-			continue
-		}
-		if d.V.Flags[c][1] {
-			fs = append(fs, mc.F("C14/update-restricted-metadata-changed/"+fieldNames[i], "class %s (update-restricted) token %s: %s is %q, minted with %q (%s query)", classLabel[c], got.Id, fieldNames[i], g[i], w[i], query))
-		} else {
-			fs = append(fs, mc.F("C14/metadata-changed-without-owner-request/"+fieldNames[i], "class %s token %s: %s is %q but the last value established by the owner is %q (%s query)", classLabel[c], got.Id, fieldNames[i], g[i], w[i], query))
-		}
-	}
-	return fs
 }
 
 const rule = "state with at least two live tokens; distinct by canonical hash of the nft store and the reference ownership map"
